@@ -9,12 +9,12 @@ package strptime
 
 //verif:opts unwind=400 maxsteps=400000 maxpaths=100000 cap=5000 samples=2
 func VerifC16_strptime_bounds() {
-	formats := []string{"%Y", "xyz%Y", "%Y%%", "%%%Y", "%Y-%m", "%H:%M", "%d/%m", "%s", "%j", "%Y.", "ab%Hcd", "%m%d", "%y%%%m"}
-	f := formats[verifChoice("format", len(formats))]
-	n := 5
+	formats := []string{"xyz%Y", "%Y%%", "%H:%M", "ab%Hcd", "%m%d", "%y%%%m", "%Y", "%%%Y", "%Y-%m", "%d/%m", "%s", "%j", "%Y."}
+	nf, n := 6, 4
 	if verifTier() > 0 {
-		n = 7
+		nf, n = len(formats), 6
 	}
+	f := formats[verifChoice("format", nf)]
 	l := verifChoice("len", n)
 	in := verifString("in", l)
 	_, err := Parse(in, f)
